@@ -33,6 +33,30 @@ func c06Msg(ty, ts, payload string) base.RtmpMsg {
 	return msg
 }
 
+// c06RecvBufs hands every message to the code under test the way a real rtmp session does: the payload lives in a
+// receive buffer that is REUSED for the next message of the same type (the chunk composer keeps one buffer per chunk
+// stream; "the payload block is reused after the callback returns"), and that buffer is scribbled over as soon as the
+// call has returned.  Whatever a remuxer retains of a message without copying it then shows up in its later output -
+// a mismatch with the model, which has value semantics.
+type c06RecvBufs map[uint8][]byte
+
+func (rb c06RecvBufs) feed(msg base.RtmpMsg, call func(base.RtmpMsg)) {
+	t := msg.Header.MsgTypeId
+	b := rb[t]
+	if cap(b) < len(msg.Payload) {
+		b = make([]byte, len(msg.Payload), 2*len(msg.Payload)+16)
+	}
+	b = b[:len(msg.Payload)]
+	copy(b, msg.Payload)
+	rb[t] = b
+	msg.Payload = b
+	call(msg)
+	// ... as the next message on that chunk stream would
+	for i := range b {
+		b[i] ^= 0x5a
+	}
+}
+
 // scripted observer: one decision per top-level OnTsPackets callback (call
 // FlushAudio from inside the callback or not); events are recorded when their
 // callback completes, so a nested audio frame precedes the frame whose callback
@@ -91,12 +115,13 @@ func init() {
 		}
 		r := remux.NewRtmp2MpegtsRemuxer(o)
 		o.r = r
+		recv := c06RecvBufs{}
 		if a[1] != "-" {
 			for _, e := range strings.Split(a[1], ";") {
 				f := strings.Split(e, ":")
 				switch f[0] {
 				case "M":
-					r.FeedRtmpMessage(c06Msg(f[1], f[2], f[3]))
+					recv.feed(c06Msg(f[1], f[2], f[3]), r.FeedRtmpMessage)
 				case "F":
 					r.FlushAudio()
 				case "D":
@@ -137,14 +162,15 @@ func init() {
 				out = append(out, fmt.Sprintf("R:%s:%s:%s:%s:%s:%s", tr, tokNum(uint64(pkt.Header.PacketType)), tokNum(uint64(pkt.Header.Mark)),
 					tokNum(uint64(rel)), tokNum(uint64(pkt.Header.Timestamp)), hexOf(pkt.Raw[12:])))
 			})
+		recv := c06RecvBufs{}
 		if a[0] != "-" {
 			for _, e := range strings.Split(a[0], ";") {
 				f := strings.Split(e, ":")
 				switch f[0] {
 				case "M":
-					r.FeedRtmpMsg(c06Msg(f[1], f[2], f[3]))
+					recv.feed(c06Msg(f[1], f[2], f[3]), r.FeedRtmpMsg)
 				case "I":
-					r.FeedRtmpMsg(c06Msg("18", "0", f[3]))
+					recv.feed(c06Msg("18", "0", f[3]), r.FeedRtmpMsg)
 				default:
 					return "bad-input"
 				}
